@@ -88,6 +88,7 @@ type sessKeys struct {
 	secret   []byte
 	other    string            // another key of the store, different secret (map store only)
 	secrets  map[string]string // TsigSecret
+	rs       *recvStore        // when set: what the receiver is configured with instead (stores.go)
 }
 
 func genSessKeys(r *Rng, provider bool) *sessKeys {
@@ -104,6 +105,12 @@ func genSessKeys(r *Rng, provider bool) *sessKeys {
 
 // store is the receiver's key material in the form the model cases describe it.
 func (k *sessKeys) store() keyStore {
+	if k.rs != nil {
+		if k.rs.prov != nil {
+			return keyStore{single: true, secret: base64.StdEncoding.EncodeToString(k.rs.provSecret)}
+		}
+		return keyStore{secrets: k.rs.secrets}
+	}
 	if k.provider {
 		return keyStore{single: true, secret: k.b64}
 	}
@@ -191,8 +198,16 @@ func refVerify(env []byte, k *sessKeys, rm []byte, timers bool, now uint64) bool
 		return false
 	}
 	secret := k.secret
-	if !k.provider {
-		b64, ok := k.secrets[present(t.rr.name)]
+	secrets := k.secrets
+	byName := !k.provider
+	if k.rs != nil {
+		if k.rs.provErr {
+			return false
+		}
+		secret, secrets, byName = k.rs.provSecret, k.rs.secrets, k.rs.prov == nil
+	}
+	if byName {
+		b64, ok := secrets[present(t.rr.name)]
 		if !ok {
 			return false
 		}
@@ -620,6 +635,7 @@ type scenario struct {
 	qid       uint16
 	serial    uint32
 	segSeed   uint64
+	msgKind   string // stores.go: what the peer sends ("" = signed with its key)
 }
 
 const xfrZone = "xfr.example."
@@ -732,6 +748,11 @@ func (s *scenario) pol() int {
 
 func (s *scenario) chain(rm0 []byte) *chain {
 	c := &chain{k: s.k, alg: s.alg, fudge: s.fudge, now: s.now, libSign: s.libSign, pol: s.pol(), msgs: s.msgs}
+	if s.msgKind == "unknown-key" {
+		k2 := *s.k
+		k2.key = unknownKeyName
+		c.k = &k2
+	}
 	if !c.build(rm0) {
 		return nil
 	}
@@ -838,7 +859,7 @@ func (s *scenario) script(o *sessObs, written []byte, tm *tamper, k int, salt ui
 		return nil
 	}
 	if tm == nil {
-		o.tr, o.applied = tamperRes{o.c.envs, -1, false}, true
+		o.tr, o.applied = tamperRes{messagesOfKind(s.msgKind, o.c), -1, false}, true
 		return o.tr.envs
 	}
 	o.tr, o.applied = tm.f(o.c, k, &Rng{S: salt})
@@ -849,10 +870,21 @@ func (s *scenario) script(o *sessObs, written []byte, tm *tamper, k int, salt ui
 }
 
 func (s *scenario) configure(secret *map[string]string, prov *dns.TsigProvider) {
-	if s.k.provider {
-		*prov = s.k.tsigProvider()
-	} else {
-		*secret = s.k.secrets
+	s.k.configure(secret, prov)
+}
+
+// configure sets the TsigSecret / TsigProvider fields of a receiver.
+func (k *sessKeys) configure(secret *map[string]string, prov *dns.TsigProvider) {
+	switch {
+	case k.rs != nil:
+		*secret = k.rs.secrets
+		if k.rs.prov != nil {
+			*prov = k.rs.prov
+		}
+	case k.provider:
+		*prov = k.tsigProvider()
+	default:
+		*secret = k.secrets
 	}
 }
 
@@ -1272,6 +1304,9 @@ func (s *scenario) emitSession(o *sessObs, quota *int) {
 		if i > last && last >= 0 && s.pol() == polLoop {
 			break
 		}
+		if i > 0 && o.items[i-1].err != nil && s.pol() == polLoop {
+			break // the running MAC after a rejected message is the library's own business
+		}
 		if i >= len(o.tr.envs) {
 			break
 		}
@@ -1301,6 +1336,99 @@ type srvRec struct {
 	hasTsig bool
 	status  error
 	called  int
+}
+
+// serveQueries runs a real dns.Server configured with keys over a scripted TCP
+// connection (all queries on one connection) or UDP socket and returns what the
+// handler saw for each query ID and what the server wrote.
+func serveQueries(udp bool, envs [][]byte, keys *sessKeys, outEnvs int) (map[uint16]*srvRec, [][]byte, bool) {
+	var mu sync.Mutex
+	recs := map[uint16]*srvRec{}
+	handler := dns.HandlerFunc(func(w dns.ResponseWriter, req *dns.Msg) {
+		mu.Lock()
+		rec := recs[req.Id]
+		if rec == nil {
+			rec = &srvRec{}
+			recs[req.Id] = rec
+		}
+		rec.called++
+		rec.hasTsig = req.IsTsig() != nil
+		rec.status = w.TsigStatus()
+		verified := rec.hasTsig && rec.status == nil
+		mu.Unlock()
+		if len(req.Question) == 1 && req.Question[0].Qtype == dns.TypeAXFR {
+			ch := make(chan *dns.Envelope)
+			go func() {
+				for i := 0; i < outEnvs; i++ {
+					rrs := []dns.RR{&dns.A{Hdr: dns.RR_Header{Name: "h" + Itoa(i) + "." + xfrZone, Rrtype: dns.TypeA, Class: dns.ClassINET, Ttl: 5}, A: []byte{10, 0, 0, byte(i)}}}
+					if i == 0 {
+						rrs = append([]dns.RR{soaRR(7)}, rrs...)
+					}
+					if i == outEnvs-1 {
+						rrs = append(rrs, soaRR(7))
+					}
+					ch <- &dns.Envelope{RR: rrs}
+				}
+				close(ch)
+			}()
+			new(dns.Transfer).Out(w, req, ch)
+			return
+		}
+		m := new(dns.Msg)
+		m.SetReply(req)
+		m.Answer = append(m.Answer, &dns.A{Hdr: dns.RR_Header{Name: req.Question[0].Name, Rrtype: dns.TypeA, Class: dns.ClassINET, Ttl: 5}, A: []byte{192, 0, 2, 7}})
+		if verified {
+			t := req.IsTsig()
+			m.SetTsig(t.Hdr.Name, t.Algorithm, t.Fudge, time.Now().Unix())
+		}
+		w.WriteMsg(m)
+	})
+	srv := &dns.Server{Handler: handler, ReadTimeout: longIO, WriteTimeout: longIO, IdleTimeout: func() time.Duration { return longIO }}
+	keys.configure(&srv.TsigSecret, &srv.TsigProvider)
+	var written [][]byte
+	done := make(chan error, 1)
+	if udp {
+		pc := netfake.NewPacketConn(envs, nil)
+		srv.PacketConn = pc
+		go func() { done <- srv.ActivateAndServe() }()
+		if !netfake.WaitChan(pc.Drained, sessWait) {
+			st["sess_infra_timeout"]++
+			return nil, nil, false
+		}
+		srv.Shutdown()
+		if !waitErr(done) {
+			st["sess_infra_timeout"]++
+			return nil, nil, false
+		}
+		for _, w := range pc.Writes() {
+			written = append(written, w.Data)
+		}
+	} else {
+		fc := netfake.NewConn([][]byte{frames(envs)})
+		srv.Listener = netfake.NewListener(fc)
+		go func() { done <- srv.ActivateAndServe() }()
+		if !netfake.WaitClosed(fc, sessWait) {
+			st["sess_infra_timeout"]++
+			return nil, nil, false
+		}
+		srv.Shutdown()
+		if !waitErr(done) {
+			st["sess_infra_timeout"]++
+			return nil, nil, false
+		}
+		w := fc.Written()
+		for len(w) >= 2 {
+			l := int(binary.BigEndian.Uint16(w))
+			if 2+l > len(w) {
+				break
+			}
+			written = append(written, w[2:2+l])
+			w = w[2+l:]
+		}
+	}
+	mu.Lock()
+	defer mu.Unlock()
+	return recs, written, true
 }
 
 // runServer feeds nq queries (one tampered, at position k) to a real dns.Server
@@ -1344,96 +1472,10 @@ func runServer(r *Rng, udp bool, nq int, provider bool, tm *tamper, k int, quota
 		}
 		tname = tm.name
 	}
-	var mu sync.Mutex
-	recs := map[uint16]*srvRec{}
-	handler := dns.HandlerFunc(func(w dns.ResponseWriter, req *dns.Msg) {
-		mu.Lock()
-		rec := recs[req.Id]
-		if rec == nil {
-			rec = &srvRec{}
-			recs[req.Id] = rec
-		}
-		rec.called++
-		rec.hasTsig = req.IsTsig() != nil
-		rec.status = w.TsigStatus()
-		verified := rec.hasTsig && rec.status == nil
-		mu.Unlock()
-		if len(req.Question) == 1 && req.Question[0].Qtype == dns.TypeAXFR {
-			ch := make(chan *dns.Envelope)
-			go func() {
-				for i := 0; i < outEnvs; i++ {
-					rrs := []dns.RR{&dns.A{Hdr: dns.RR_Header{Name: "h" + Itoa(i) + "." + xfrZone, Rrtype: dns.TypeA, Class: dns.ClassINET, Ttl: 5}, A: []byte{10, 0, 0, byte(i)}}}
-					if i == 0 {
-						rrs = append([]dns.RR{soaRR(7)}, rrs...)
-					}
-					if i == outEnvs-1 {
-						rrs = append(rrs, soaRR(7))
-					}
-					ch <- &dns.Envelope{RR: rrs}
-				}
-				close(ch)
-			}()
-			new(dns.Transfer).Out(w, req, ch)
-			return
-		}
-		m := new(dns.Msg)
-		m.SetReply(req)
-		m.Answer = append(m.Answer, &dns.A{Hdr: dns.RR_Header{Name: req.Question[0].Name, Rrtype: dns.TypeA, Class: dns.ClassINET, Ttl: 5}, A: []byte{192, 0, 2, 7}})
-		if verified {
-			t := req.IsTsig()
-			m.SetTsig(t.Hdr.Name, t.Algorithm, t.Fudge, time.Now().Unix())
-		}
-		w.WriteMsg(m)
-	})
-	srv := &dns.Server{Handler: handler, ReadTimeout: longIO, WriteTimeout: longIO, IdleTimeout: func() time.Duration { return longIO }}
-	if provider {
-		srv.TsigProvider = keys.tsigProvider()
-	} else {
-		srv.TsigSecret = keys.secrets
+	recs, written, ok := serveQueries(udp, tr.envs, keys, outEnvs)
+	if !ok {
+		return
 	}
-	var written [][]byte
-	done := make(chan error, 1)
-	if udp {
-		pc := netfake.NewPacketConn(tr.envs, nil)
-		srv.PacketConn = pc
-		go func() { done <- srv.ActivateAndServe() }()
-		if !netfake.WaitChan(pc.Drained, sessWait) {
-			st["sess_infra_timeout"]++
-			return
-		}
-		srv.Shutdown()
-		if !waitErr(done) {
-			st["sess_infra_timeout"]++
-			return
-		}
-		for _, w := range pc.Writes() {
-			written = append(written, w.Data)
-		}
-	} else {
-		fc := netfake.NewConn([][]byte{frames(tr.envs)})
-		srv.Listener = netfake.NewListener(fc)
-		go func() { done <- srv.ActivateAndServe() }()
-		if !netfake.WaitClosed(fc, sessWait) {
-			st["sess_infra_timeout"]++
-			return
-		}
-		srv.Shutdown()
-		if !waitErr(done) {
-			st["sess_infra_timeout"]++
-			return
-		}
-		w := fc.Written()
-		for len(w) >= 2 {
-			l := int(binary.BigEndian.Uint16(w))
-			if 2+l > len(w) {
-				break
-			}
-			written = append(written, w[2:2+l])
-			w = w[2+l:]
-		}
-	}
-	mu.Lock()
-	defer mu.Unlock()
 	in := func(detail string) sessIn {
 		i := sessIn{Entry: map[bool]string{true: "server-udp", false: "server-tcp"}[udp], Tamper: tname, Position: k, Of: nq, Key: keys.key, Secret: keys.b64,
 			Provider: provider, Alg: alg.name, Fudge: fudge, Signed: now, Detail: detail}
@@ -1635,6 +1677,7 @@ func runSessions(r *Rng, tier string) {
 		}
 	}
 	probeReusedConn(r)
+	runStores(r, tier)
 	// server side
 	nsrv := 3
 	if thorough {
